@@ -40,7 +40,14 @@ OVERLAP_UNIONS = [
     ("or", (("gen", "list", (("leaf", "int"),)), ("gen", "tuple_var", (("leaf", "int"),)))),
     ("or", (("leaf", "Decimal"), ("leaf", "int"))), ("or", (("leaf", "timedelta"), ("leaf", "float"))),
     ("or", (("leaf", "time"), ("leaf", "str"))), ("or", (("leaf", "UUID"), ("leaf", "str"))),
+    # constrained arguments: a later argument's (lax) output is convertible by an earlier argument
+    ("or", (("con", "int", (("ge", 0),), (), ()), ("con", "str", (("max_length", 2),), ("max_length",), ()))),
+    ("or", (("con", "int", (("le", 2),), (), ()), ("con", "float", (("le", 2.5),), ("le",), ()))),
+    ("or", (("con", "int", (("ge", 0),), (), ()), ("con", "Decimal", (("decimal_places", 1),), ("decimal_places",), ()))),
+    ("or", (("con", "float", (("ge", 0),), (), ()), ("con", "str", (("max_length", 3),), ("max_length",), ()))),
+    ("or", (("con", "int", (("multiple_of", 5),), (), ()), ("con", "str", (("regex", r"\d+"),), (), ()))),
 ]
+OVERLAP_INPUTS = ["12abc", "123", "12", "1.5x", 3.7, 2.4, "3.7", 5, 99, -1, "7", "0", 12.25, "12.25", Decimal("3.75"), b"45", "45abc", True, 2.5, "abc", 10, "10"]
 NUM_POOL = [0, 1, -1, 2, 3, 5, 7, 9, 10, 11, 12, 99, 100, 101, 255, 999, 1000, 1001, -7, -10, -11, -255,
             0.0, -0.0, 0.5, 1.5, -1.5, 2.5, 0.1, 0.3, 0.7, 1.0, 0.9, 1.1, 9.95, 99.95, 999.5, 0.0009995, 12.345, 12.3, 0.995, 9.5,
             3.14159, 1e16, 1e-7, 123456.789, -99.95, -0.05, 0.05, 0.15, 0.25, 0.35, 2.675, 1.005,
@@ -119,6 +126,9 @@ def make_case(i, rng, tier):
             spec = TS.gen_spec(rng, depth, allow_lax=rng.random() < 0.4, abstract=rng.random() < 0.1,
                                dc=lambda r, d: TS.gen_dc(r, max(0, min(d, 1))))
         inputs = [TS.gen_input(rng, spec) for _ in range(8)]
+        if spec in OVERLAP_UNIONS or (spec[0] == "gen" and spec[2] and spec[2][0] in OVERLAP_UNIONS):
+            wrap = (lambda v: [v]) if spec[0] == "gen" else (lambda v: v)
+            inputs += [(lambda v=v: wrap(v)) for v in rng.sample(OVERLAP_INPUTS, 8)]
         opts = dict(rng.choice(OPTS))
         route = rng.choice(["tt", "call", "field", "param"])
     return {"fam": fam, "spec": spec, "opts": opts, "route": route, "inputs": inputs, "rng": rng}
@@ -229,6 +239,40 @@ def mechanism(builder, node, v, opts):
             except Exception:
                 pass
         kk = "or" if k == "opt" else k
+        if k != "xor" and acc >= 2:
+            # the listed finding is *staged re-resolution*: the documented stages (exact type; strict; no-loss; as given; arguments in
+            # order within a stage) applied to the OUTPUT pick another argument than they did for the input.  It only explains a
+            # re-parse whose result is what that staged procedure predicts; anything else is a different defect.
+            pred = None
+            exact = next((a for a in arms if a[0] == "leaf" and type(v) is TS.ORIGINS.get(a[1])), None)
+            if exact is not None:
+                return f"{kk}/not-explained-by-staged-resolution"  # an exact-type value must come back unchanged
+            order = []
+            if not (ndl and ncast):
+                order.append(dict(opts, no_data_loss=True, no_explicit_cast=True))
+            if not ndl and not ncast:
+                order.append(dict(opts, no_data_loss=True))
+            order.append(dict(opts))
+            for st in order:
+                for a in arms:
+                    try:
+                        o = _parse_with(builder, a, v, st)
+                    except Exception:
+                        continue
+                    if o.ok:
+                        pred = o
+                        break
+                if pred is not None:
+                    break
+            o2 = _parse_with(builder, node, v, opts)
+            if pred is None or not o2.ok:
+                return f"{kk}/not-explained-by-staged-resolution"
+            if V.is_consumable(o2.value) or V.is_consumable(pred.value):
+                same = type(o2.value) is type(pred.value)  # one-shot results: only their kind can be compared
+            else:
+                same = V.approx_eq(o2.value, pred.value, sub_ok=True)
+            if not same:
+                return f"{kk}/not-explained-by-staged-resolution"
         return f"{kk}/" + ("output-accepted-by-several-arms" if acc >= 2 else "single-arm")
     if k == "con":
         cons, lax = node[2], node[3]
